@@ -44,8 +44,8 @@ TIERS = {
                     MaxAtoms=10, MaxDepth=2, MaxMap=1, MaxDel=2, Dims="DimsMid"),
         "C10": dict(InitFrags=ALLF, ExtFrags='{"F1p", "F3p", "F3q", "F4b", "F2y"}', InitCells='{"none", "tri"}',
                     MaxAtoms=9, MaxDepth=2, MaxMap=1, MaxDel=4, Dims="DimsQuick"),
-        "C11": dict(InitFrags=ALLF, ExtFrags='{"F1p", "F2p", "F3p", "F3e", "F3q", "F2b", "F4b", "F2y"}', InitCells='{"none"}',
-                    MaxAtoms=9, MaxDepth=2, MaxMap=2, MaxDel=1, Dims="DimsQuick"),
+        "C11": dict(InitFrags='{"F2p", "F4p", "F3r", "F3e", "F4b", "F3x", "E"}', ExtFrags='{"F1p", "F3p", "F3e", "F3q", "F2b", "F2y"}',
+                    InitCells='{"none"}', MaxAtoms=8, MaxDepth=2, MaxMap=2, MaxDel=1, Dims="DimsQuick"),
         "C12": dict(InitFrags=ALLF, ExtFrags='{"F1p", "F3a", "F3e", "F2y"}', InitCells='{"ortho", "tri", "trineg"}',
                     MaxAtoms=16, MaxDepth=2, MaxMap=1, MaxDel=1, Dims="DimsThorough"),
     },
